@@ -347,7 +347,13 @@ func (b *BaseType) UnmarshalJSON(data []byte) error {
 		case []interface{}:
 			// it's an OvsSet
 			oSet := bt.Enum.([]interface{})
-			innerSet := oSet[1].([]interface{})
+			if len(oSet) != 2 || oSet[0] != "set" {
+				return fmt.Errorf("enum %v is not a valid <set>", bt.Enum)
+			}
+			innerSet, ok := oSet[1].([]interface{})
+			if !ok {
+				return fmt.Errorf("enum %v is not a valid <set>", bt.Enum)
+			}
 			b.Enum = make([]interface{}, len(innerSet))
 			copy(b.Enum, innerSet)
 		default:
@@ -549,6 +555,9 @@ func (c *ColumnSchema) UnmarshalJSON(data []byte) error {
 	c.ephemeral = colJSON.Ephemeral
 	c.mutable = colJSON.Mutable
 	c.TypeObj = colJSON.Type
+	if c.TypeObj == nil || c.TypeObj.Key == nil {
+		return fmt.Errorf("cannot parse column object: \"type\" with a \"key\" is required")
+	}
 
 	// Infer the ExtendedType from the TypeObj
 	if c.TypeObj.Value != nil {
